@@ -102,7 +102,7 @@ def run(ctx):
     ctx.rule = ('(a) the KendallFit enumeration (all permutations n<=%s, tie cases, random longer columns): TLC computes the admissible '
                 'candidate set of select_copula exactly; the real function must return a member carrying the shared Kendall tau and its own '
                 'calibration, identically on a second call with another global RNG state, on permuted rows and through the deprecated alias; '
-                '(b) recovery: samples of n=3000 from Clayton / Frank / Gumbel drawn by independent samplers (conditional inverse, '
+                '(b) recovery: samples of n=3000 and 7777 (thorough: also 5000, 12345) from Clayton / Frank / Gumbel drawn by independent samplers (conditional inverse, '
                 'Marshall-Olkin) at tau 0.3, 0.5, 0.7, %s seeds per cell; TLC (Acceptance) requires >= 70 %% recovered per cell. '
                 'non-trivial = positive tau (more than one candidate); distinct by input') % (('6', '10') if quick else ('7', '40'))
     ctx.assumptions = ['the scoring arithmetic of select_copula is not pinned (any member of the candidate set is accepted)',
@@ -111,8 +111,9 @@ def run(ctx):
     with Pool(16) as pool:
         res = pool.map(_check, cases, chunksize=16)
         ns = 10 if quick else 40
-        jobs = [(f, t, ctx.seed * 1000 + 17 * i + j, 3000) for f in ('CLAYTON', 'FRANK', 'GUMBEL') for j, t in enumerate((0.3, 0.5, 0.7))
-                for i in range(ns)]
+        sizes = (3000, 7777) if quick else (3000, 5000, 7777, 12345)       # n >= 3000, deliberately not round numbers only
+        jobs = [(f, t, ctx.seed * 1000 + 17 * i + j + n, n) for f in ('CLAYTON', 'FRANK', 'GUMBEL') for j, t in enumerate((0.3, 0.5, 0.7))
+                for n in sizes for i in range(ns)]
         rec = pool.map(_recover, jobs, chunksize=2)
     for case, probs in zip(cases, res):
         ctx.case(json.dumps([case['x'], case['y']]), nontrivial=(case['s'] > 0 and case['d1'] > 0 and case['d2'] > 0))
@@ -121,14 +122,14 @@ def run(ctx):
                           dict(case, rerun=['harness.props.C11._check', case]))
     ctx.sample({k: cases[len(cases) // 2][k] for k in ('x', 'y', 's', 'd1', 'd2', 'cands')})
     cells = {}
-    for (f, t, _, _), ok in zip(jobs, rec):
-        k, n = cells.get((f, t), (0, 0))
-        cells[(f, t)] = (k + int(ok), n + 1)
-    records = [A.count('%s@%.1f' % (f, t), k, n, 70) for (f, t), (k, n) in sorted(cells.items())]
+    for (f, t, _, size), ok in zip(jobs, rec):
+        k, n = cells.get((f, t, size), (0, 0))
+        cells[(f, t, size)] = (k + int(ok), n + 1)
+    records = [A.count('%s@%.1f,n=%d' % (f, t, size), k, n, 70) for (f, t, size), (k, n) in sorted(cells.items())]
     for i in A.evaluate(ctx, 'Acceptance.recovery', records):
         r = records[i]
         ctx.violation('C11|select_copula|family-not-recovered|%s' % r['id'],
-                      'generating family recovered in only %d of %d samples (cell %s, n=3000)' % (r['k'], r['n'], r['id']), r)
+                      'generating family recovered in only %d of %d samples (cell %s)' % (r['k'], r['n'], r['id']), r)
     ctx.extra['recovery_cells'] = {r['id']: '%d/%d' % (r['k'], r['n']) for r in records}
     for (f, t, sd, n) in jobs:
         ctx.case('recover|%s|%.1f|%d' % (f, t, sd))
